@@ -9,20 +9,20 @@ namespace Claripy.AST
 /-! ### equality on atoms -/
 theorem EqAtom.eq_of_beq {a b : EqAtom} (h : (a == b) = true) : a = b := by
   cases a; cases b
-  simp only [BEq.beq, Bool.and_eq_true, decide_eq_true_eq] at h
-  obtain ⟨⟨h1, h2⟩, h3⟩ := h
-  rw [Expr.eq_of_beq _ _ h1, h2, Bit.eq_of_beq _ _ h3]
+  simp only [BEq.beq, Bool.and_eq_true] at h
+  obtain ⟨h1, h2⟩ := h
+  rw [Bit.eq_of_beq _ _ h1, Bit.eq_of_beq _ _ h2]
 
 instance : LawfulBEq EqAtom where
   eq_of_beq := EqAtom.eq_of_beq
   rfl {a} := by
     cases a
     simp only [BEq.beq, Bool.and_eq_true]
-    exact ⟨⟨Expr.beq_refl _, by simp⟩, Bit.beq_refl _⟩
+    exact ⟨Bit.beq_refl _, Bit.beq_refl _⟩
 
 /-! ### denotations -/
 def atomHolds (env : Env) (a : EqAtom) : Option Bool :=
-  match bitDen env (.of a.t a.i false), bitDen env a.rhs with
+  match bitDen env a.lhs, bitDen env a.rhs with
   | some x, some y => some (x == y)
   | _, _ => none
 
@@ -47,75 +47,79 @@ def dens (env : Env) : List Bit → Option (List Bool)
     | some x, some xs => some (x :: xs)
     | _, _ => none
 
-theorem bitDen_of (env : Env) (t : Expr) (i : Nat) (ng : Bool) (p : Bool) (h : bitDen env (.of t i ng) = some p) :
-    bitDen env (.of t i false) = some (p ^^ ng) := by
-  simp only [bitDen] at h ⊢
-  cases hv : eval env t with
-  | err => simp [hv] at h
-  | bool b => simp [hv] at h
-  | bv w n =>
-    simp only [hv, Option.some.injEq] at h ⊢
+/-- a bit is its stripped form, complemented or not -/
+theorem strip_den (env : Env) : ∀ (x : Bit) (p : Bool), bitDen env x = some p → bitDen env x.strip.1 = some (p ^^ x.strip.2)
+  | .c b, p, h => by
+    simp only [bitDen, Option.some.injEq] at h
     subst h
-    cases n.testBit i <;> cases ng <;> rfl
+    simp [Bit.strip, bitDen]
+  | .of t i ng, p, h => by
+    simp only [Bit.strip, bitDen] at h ⊢
+    cases hv : eval env t with
+    | err => simp [hv] at h
+    | bool b => simp [hv] at h
+    | bv w n =>
+      simp only [hv, Option.some.injEq] at h ⊢
+      subst h
+      cases n.testBit i <;> cases ng <;> rfl
+  | .p t ng, p, h => by
+    simp only [Bit.strip, bitDen] at h ⊢
+    cases hv : eval env t with
+    | err => simp [hv] at h
+    | bv w n => simp [hv] at h
+    | bool b =>
+      simp only [hv, Option.some.injEq] at h ⊢
+      subst h
+      cases b <;> cases ng <;> rfl
+  | .bin k a b ng, p, h => by
+    simp only [Bit.strip, bitDen] at h ⊢
+    cases ha : bitDen env a with
+    | none => simp [ha] at h
+    | some x =>
+      cases hb : bitDen env b with
+      | none => simp [ha, hb] at h
+      | some y =>
+        simp only [ha, hb, Option.some.injEq] at h ⊢
+        subst h
+        cases k.g x y <;> cases ng <;> rfl
+  | .mux e a b, p, h => by simpa [Bit.strip] using h
+
+theorem xorNeg_den (env : Env) (x : Bit) (n : Bool) (p : Bool) (h : bitDen env x = some p) :
+    bitDen env (x.xorNeg n) = some (p ^^ n) := by
+  cases n <;> simp [Bit.xorNeg, bitDen_not, h]
 
 theorem normPair_den (env : Env) (x y : Bit) (p q : Bool) (hx : bitDen env x = some p) (hy : bitDen env y = some q) :
     pairDen env (normPair x y) = some (p == q) := by
-  cases x with
-  | c a =>
-    cases y with
-    | c b =>
-      simp only [bitDen, Option.some.injEq] at hx hy
-      subst hx hy
-      simp only [normPair]
-      split <;> rename_i h <;> simp [pairDen] <;> simpa using h
-    | of u j ng' =>
-      simp only [bitDen, Option.some.injEq] at hx
-      subst hx
-      have := bitDen_of env u j ng' q hy
-      simp only [normPair, pairDen, atomHolds]
-      rw [this]
-      simp only [bitDen]
-      cases a <;> cases q <;> cases ng' <;> rfl
-  | of t i ng =>
-    cases y with
-    | c b =>
-      simp only [bitDen, Option.some.injEq] at hy
-      subst hy
-      have := bitDen_of env t i ng p hx
-      simp only [normPair, pairDen, atomHolds]
-      rw [this]
-      simp only [bitDen]
-      cases b <;> cases p <;> cases ng <;> rfl
-    | of u j ng' =>
-      have h1 := bitDen_of env t i ng p hx
-      have h2 := bitDen_of env u j ng' q hy
-      simp only [normPair]
-      split
-      · rename_i hsame
-        simp only [Bool.and_eq_true, beq_iff_eq] at hsame
-        obtain ⟨rfl, rfl⟩ := hsame
-        rw [h1] at h2
-        simp only [Option.some.injEq] at h2
-        split <;> rename_i hng
-        · have : ng = ng' := by simpa using hng
-          subst this
-          have : p = q := by cases p <;> cases q <;> cases ng <;> simp_all
-          simp [pairDen, this]
-        · have : ng ≠ ng' := by simpa using hng
-          have : p ≠ q := by cases p <;> cases q <;> cases ng <;> cases ng' <;> simp_all
-          simp [pairDen, this]
-      · have h2' : bitDen env (.of u j (ng ^^ ng')) = some (q ^^ ng' ^^ (ng ^^ ng')) := by
-          simp only [bitDen] at h2 ⊢
-          cases hv : eval env u with
-          | err => simp [hv] at h2
-          | bool b => simp [hv] at h2
-          | bv w n =>
-            simp only [hv, Option.some.injEq] at h2 ⊢
-            rw [← h2]
-            cases n.testBit j <;> cases ng <;> cases ng' <;> rfl
-        simp only [pairDen, atomHolds]
-        rw [h1, h2']
-        cases p <;> cases q <;> cases ng <;> cases ng' <;> rfl
+  have h1 := strip_den env x p hx
+  have h2 := strip_den env y q hy
+  unfold normPair
+  generalize x.strip = sx at h1
+  generalize y.strip = sy at h2
+  obtain ⟨x', nx⟩ := sx
+  obtain ⟨y', ny⟩ := sy
+  simp only at h1 h2 ⊢
+  split
+  · rename_i hsame
+    have : x' = y' := Bit.eq_of_beq _ _ hsame
+    subst this
+    rw [h1] at h2
+    simp only [Option.some.injEq] at h2
+    split <;> rename_i hng
+    · have : nx = ny := by simpa using hng
+      subst this
+      have : p = q := by cases p <;> cases q <;> cases nx <;> simp_all
+      simp [pairDen, this]
+    · have : nx ≠ ny := by simpa using hng
+      have : p ≠ q := by cases p <;> cases q <;> cases nx <;> cases ny <;> simp_all
+      simp [pairDen, this]
+  · split
+    · rename_i b0
+      simp only [bitDen, Option.some.injEq] at h1
+      simp only [pairDen, atomHolds, h2, bitDen]
+      subst h1
+      cases p <;> cases q <;> cases nx <;> cases ny <;> rfl
+    · simp only [pairDen, atomHolds, h1, xorNeg_den env y' (nx ^^ ny) _ h2]
+      cases p <;> cases q <;> cases nx <;> cases ny <;> rfl
 
 theorem zipPairs_den (env : Env) : ∀ (ba bb : List Bit) (ps : List PairNF) (xs ys : List Bool), zipPairs ba bb = some ps →
     dens env ba = some xs → dens env bb = some ys → allDen (pairDen env) ps = some (xs == ys)
@@ -302,15 +306,14 @@ theorem nfDen_canon (env : Env) (nf : BoolNF) (v : Bool) (h : nfDen env nf = som
     simp only [nfDen, allDen, Option.map_some, Option.some.injEq] at h ⊢
     subst h
     cases n <;> rfl
-  · rename_i t i b
+  · rename_i l b
     simp only [nfDen, allDen, atomHolds, bitDen] at h ⊢
-    cases hv : eval env t with
-    | err => simp [hv] at h
-    | bool c => simp [hv] at h
-    | bv w n =>
+    cases hv : bitDen env l with
+    | none => simp [hv] at h
+    | some x =>
       simp only [hv, Option.map_some, Option.some.injEq] at h ⊢
       subst h
-      cases n.testBit i <;> cases b <;> rfl
+      cases x <;> cases b <;> rfl
   · exact h
 
 theorem nfDen_same (env : Env) (x y : BoolNF) (h : x.same y = true) : nfDen env x = nfDen env y := by
@@ -334,11 +337,11 @@ theorem bits_ne_bool (env : Env) (e : Expr) (bs : List Bit) (h : (norm e).1 = so
   rw [he]; simp
 
 theorem bitsOf_some_not_boolOp (op : Op) (self : Expr) (obs : List (Option (List Bit))) (r : List Bit)
-    (h : bitsOf op self obs = some r) : ¬ IsBoolOp op ∧ op ≠ .ite := by
+    (h : bitsOf op self obs = some r) : ¬ IsBoolOp op := by
   unfold bitsOf at h
   split at h <;> first
     | (simp at h; done)
-    | (constructor <;> simp [IsBoolOp])
+    | simp [IsBoolOp]
 
 theorem opaqueBits_some_width (e : Expr) (bs : List Bit) (h : opaqueBits e = some bs) : ∃ w, e.width = some w := by
   unfold opaqueBits at h
@@ -359,11 +362,22 @@ theorem bits_some_not_bool (env : Env) : ∀ (e : Expr) (bs : List Bit), (norm e
     simp only [norm, normList_eq_map, normApp, List.map_map] at h
     split at h
     · rename_i r hr
-      obtain ⟨hnb, hni⟩ := bitsOf_some_not_boolOp _ _ _ _ hr
+      have hnb := bitsOf_some_not_boolOp _ _ _ _ hr
       rw [eval_app] at hev
-      rcases applyOp_bool_cases op _ x hev with hb | ⟨rfl, _⟩ | ⟨rfl, hvs⟩
+      rcases applyOp_bool_cases op _ x hev with hb | ⟨rfl, c, va, vb, y, hvs, hva⟩ | ⟨rfl, hvs⟩
       · exact hnb hb
-      · exact hni rfl
+      · -- an `If` with bits has bit-vector branches
+        match args, hvs with
+        | [ec, ea, eb], hvs =>
+          simp only [evalList, List.cons.injEq, and_true] at hvs
+          simp only [List.map_cons, List.map_nil, Function.comp_apply] at hr
+          cases hba : (norm ea).1 with
+          | none => simp [hba, bitsOf] at hr
+          | some ba => exact hall ea (by simp) ba hba y (by rw [hvs.2.1, hva])
+        | [], hvs => simp [evalList] at hvs
+        | [_], hvs => simp [evalList] at hvs
+        | [_, _], hvs => simp [evalList] at hvs
+        | _ :: _ :: _ :: _ :: _, hvs => simp [evalList] at hvs
       · -- Concat of a single Boolean-valued operand
         match args, hvs with
         | [a], hvs =>
@@ -456,30 +470,18 @@ theorem boolNF_sound (env : Env) (e : Expr) (nf : BoolNF) (ts : List Expr) (h : 
     · simp at h
   · simp at h
 
-/-- the opaque terms of a well-typed (dis)equality denote bit-vectors -/
+/-- the opaque terms of a well-typed (dis)equality are well-typed -/
 theorem boolNF_good (env : Env) (e : Expr) (nf : BoolNF) (ts : List Expr) (h : boolNF e = some (nf, ts)) (v : Bool)
     (he : eval env e = .bool v) : Good env ts := by
   have key : ∀ (a b : Expr) (ba bb : List Bit), (norm a).1 = some ba → (norm b).1 = some bb →
       valEq (eval env a) (eval env b) ≠ .err → Good env ((norm a).2 ++ (norm b).2) := by
     intro a b ba bb hba hbb hne
-    cases hva : eval env a with
-    | err => simp [hva] at hne
-    | bool x =>
-      -- a Boolean operand cannot have bits: the reported width would be both some and none
-      cases hvb : eval env b with
-      | err => simp [hva, hvb] at hne
-      | bv w n => simp [hva, hvb, valEq] at hne
-      | bool y =>
-        exact absurd hva (bits_some_not_bool env a ba hba x)
-    | bv wa na =>
-      cases hvb : eval env b with
-      | err => simp [hva, hvb] at hne
-      | bool y => simp [hva, hvb, valEq] at hne
-      | bv wb nb =>
-        intro t ht
-        rcases List.mem_append.mp ht with h1 | h1
-        · exact norm_good env a wa na hva t h1
-        · exact norm_good env b wb nb hvb t h1
+    have ha : eval env a ≠ .err := by intro hc; rw [hc] at hne; simp [valEq] at hne
+    have hb : eval env b ≠ .err := by intro hc; rw [hc] at hne; cases eval env a <;> simp [valEq] at hne
+    intro t ht
+    rcases List.mem_append.mp ht with h1 | h1
+    · exact norm_good env a ha t h1
+    · exact norm_good env b hb t h1
   unfold boolNF at h
   split at h
   · simp only [Option.some.injEq, Prod.mk.injEq] at h
@@ -508,6 +510,37 @@ theorem boolNF_good (env : Env) (e : Expr) (nf : BoolNF) (ts : List Expr) (h : b
     · simp at h
   · simp at h
 
+/-- the right-hand side form: a (dis)equality as before, or a bare Boolean term (possibly under `Not`) -/
+theorem boolNFr_sound (env : Env) (e : Expr) (nf : BoolNF) (ts : List Expr) (h : boolNFr e = some (nf, ts)) (hg : Good env ts) :
+    ∃ v, eval env e = .bool v ∧ nfDen env nf = some v := by
+  unfold boolNFr at h
+  split at h
+  · rename_i r hr
+    simp only [Option.some.injEq] at h
+    subst h
+    exact boolNF_sound env e nf ts hr hg
+  · split at h
+    · rename_i c _
+      split at h
+      · rename_i hw
+        simp only [Option.some.injEq, Prod.mk.injEq] at h
+        obtain ⟨rfl, rfl⟩ := h
+        obtain ⟨v, hv⟩ := bool_of_no_width env c hw (hg c (by simp))
+        refine ⟨!v, ?_, ?_⟩
+        · rw [eval_app]; simp [evalList, applyOp, hv, valNot]
+        · simp only [nfDen, allDen, atomHolds, bitDen, hv]
+          cases v <;> rfl
+      · simp at h
+    · split at h
+      · rename_i hw
+        simp only [Option.some.injEq, Prod.mk.injEq] at h
+        obtain ⟨rfl, rfl⟩ := h
+        obtain ⟨v, hv⟩ := bool_of_no_width env e hw (hg e (by simp))
+        refine ⟨v, hv, ?_⟩
+        simp only [nfDen, allDen, atomHolds, bitDen, hv]
+        cases v <;> rfl
+      · simp at h
+
 /-- **comparison rewrites preserve truth**: if `cmpEquiv lhs rhs` accepts and `lhs` denotes a Boolean under `env`, `rhs`
 denotes the same Boolean. -/
 theorem cmpEquiv_sound (lhs rhs : Expr) (h : cmpEquiv lhs rhs = true) (env : Env) (v : Bool) (hl : eval env lhs = .bool v) :
@@ -520,12 +553,25 @@ theorem cmpEquiv_sound (lhs rhs : Expr) (h : cmpEquiv lhs rhs = true) (env : Env
     have hgl := boolNF_good env lhs x tl hx v hl
     have hgr : Good env tr := fun t ht => hgl t (hsub t ht)
     obtain ⟨v1, h1, d1⟩ := boolNF_sound env lhs x tl hx hgl
-    obtain ⟨v2, h2, d2⟩ := boolNF_sound env rhs y tr hy hgr
+    obtain ⟨v2, h2, d2⟩ := boolNFr_sound env rhs y tr hy hgr
     have e1 := nfDen_canon env x v1 d1
     have e2 := nfDen_canon env y v2 d2
     rw [nfDen_same env _ _ hsame, e2] at e1
     simp only [Option.some.injEq] at e1
     rw [h1, h2, e1]
   · simp at h
+
+/-! non-vacuity: a comparison through an `If` between two literals collapses to the condition; atoms over a bitwise
+operation on two symbolic bits -/
+example : cmpEquiv (.app .ne [.app .concat [.bvv 0 8, .app .ite [.app .sge [.bvs "z" 2, .bvs "y" 2], .bvv 0 2, .bvv 3 2]], .bvv 3 10])
+    (.app .sge [.bvs "z" 2, .bvs "y" 2]) = true := by decide
+example : cmpEquiv (.app .eq [.app .concat [.bvv 0 8, .app .ite [.bools "c", .bvv 0 2, .bvv 3 2]], .bvv 3 10])
+    (.app .not [.bools "c"]) = true := by decide
+example : cmpEquiv (.app .ne [.app .band [.app .bor [.bvs "y" 4, .bvs "x" 4], .bvv 1 4], .bvv 0 4])
+    (.app .ne [.app .bor [.app (.extract 0 0) [.bvs "y" 4], .app (.extract 0 0) [.bvs "x" 4]], .bvv 0 1]) = true := by decide
+example : cmpEquiv (.app .eq [.app .concat [.bvv 0 8, .app .ite [.bools "c", .bvv 0 2, .bvv 3 2]], .bvv 3 10]) (.bools "c") = false := by
+  decide
+example : cmpEquiv (.app .ne [.app .concat [.bvv 0 8, .app .ite [.bools "c", .bvv 0 2, .bvv 3 2]], .bvv 3 10]) (.bools "d") = false := by
+  decide
 
 end Claripy.AST
